@@ -11,7 +11,11 @@ T_I = "TLA+ iterator model (IndexedRead.tla) model-checked by TLC against IndexP
 T_L = "TLA+ layout generator (Layout.tla: TLC enumerates every spec-legal layout / insertion set and checks order-independence of the summary-pass model); layouts built by the reference encoder and read by the real readers; TLC trace validation (TraceWriter.tla layout judge + TraceIndexed.tla)"
 T_C = "TLA+ property layer (MCAPFormat.tla) judging the regenerated reference binaries and the Go write tool's outputs by TLC trace validation; reference encoder pinned by 416 LFS sha256 hashes; finite matrix enumerated completely"
 T_X = "shared TLA+ property layer (content model of TraceWriter.tla, IndexProps via TraceIndexed.tla) judging, by TLC trace validation, what the Python readers return for Go-written files and what every Go read path returns for Python-written files"
+T_H = "TLA+ model of every length/size/offset consumer over anchored integers (Hostile.tla) checked by TLC (incl. pre-fix witness); structured-mutation plans and random bytes run in isolated child processes; TLC trace validation of every outcome (TraceHostile.tla)"
+T_M = "TLA+ model of definition resolution (Ros1Msg.tla: Resolve + explicit-stack resolver machine) model-checked by TLC for termination, bounded stack and agreement on all graphs of a small scope; TLC trace validation of the real parser on rendered random graphs (TraceRos.tla); hostile definitions in isolated workers"
 CHECKS = [
+ ("C19", "model_checking", T_M, "6 C19", "Seeded random type graphs rendered in varied concrete syntax and parsed by the real parser, the expected tree recomputed by TLC from the graph; cyclic, bracket-mangled, random and mutated definitions in isolated workers with stack cap and deadline; the resolver model terminates with a bounded stack on all 73 000 small graphs."),
+ ("C10", "model_checking", T_H, "6 C10", "About 10^5 (quick) structured mutations, truncations, splices and random inputs x 13 public entry points in isolated workers (12 GiB address-space cap, 20 s deadline with confirmation run, allocation accounting); TLC judges outcome class and allocation ceiling per case; the anchored-integer model proves each guarded consumer safe for every magnitude and shows the unguarded (pre-fix) versions unsafe."),
  ("C16", "model_checking", T_X, "6 C16", "Go writer (no compression, random configurations) -> Python NonSeekingReader and SeekingReader (CRC validation, 3 orders); Python Writer over its options -> Go lexer, scan, indexed reads in all orders, Info; one abstract content judged by TLC in both directions."),
  ("C11", "model_checking", T_L, "6 C11", "Every subset of 10 insertion positions x padding, enumerated by TLC from Layout.tla, built by the reference encoder for seeded contents and read by lexer, scan, indexed reads and Info; plus the 208 padded conformance binaries; TLC judges every report against the logical content."),
  ("C12", "model_checking", T_L, "6 C12", "All legal arrangements of all subsets of the summary groups and all data layouts (chunk partitions, compressions, definition placement) enumerated by TLC, built by the reference encoder and read by every Go read path; TLC judges content and index-based reads per layout; the summary-pass model is checked order-independent (the pre-fix pass is kept as a violated witness)."),
